@@ -48,7 +48,7 @@ struct PWorld {
   bool call_fn_ran = false;        // the caller's payload was handed to an acceptor function
   int accepted = 0;                // payload the async_accept received (0 = none)
   int immediate = 0;               // payload a try_accept received
-  bool report_forwarder = false;   // the completion_forwarder finding is reported by the two cancel scenarios
+  bool report_forwarder = false;   // regression monitors for the (fixed) completion_forwarder defect, on in the cancel scenarios
 
   PWorld() { for (int i = 0; i < 2; ++i) { ctx[i].id = i; ctx[i].deferred = true; } }
 
@@ -133,7 +133,8 @@ SCENARIO(pass_rendezvous) {
   w.finish(true, true);
 }
 
-// The call can be cancelled.  This scenario REPORTS the completion_forwarder defect (DESIGN §8 #3).
+// The call can be cancelled.  Regression monitor for DESIGN §8 #3 (fixed in /repo b17d5ba): a stop request
+// after the hand-over must not turn the rescheduled completion into done.
 SCENARIO(pass_cancel_call) {
   PWorld w; w.report_forwarder = true;
   int t1 = rt::spawn([&] { w.call<true>(); });
@@ -149,7 +150,7 @@ SCENARIO(pass_cancel_call) {
   w.finish(true, true);
 }
 
-// Same with a scheduler that ignores stop tokens: no defect, `cancelled_` alone decides.
+// Same with a scheduler that ignores stop tokens (same model configuration): `cancelled_` alone decides.
 SCENARIO(pass_cancel_call_plain) {
   PWorld w; w.report_forwarder = true; w.ctx[0].honour_stop = false; w.ctx[1].honour_stop = false;
   int t1 = rt::spawn([&] { w.call<true>(); });
@@ -164,7 +165,7 @@ SCENARIO(pass_cancel_call_plain) {
   w.finish(true, true);
 }
 
-// The accept can be cancelled.  REPORTS the mirror image of the same defect (payload dropped).
+// The accept can be cancelled.  Regression monitor for the mirror image (payload dropped).
 SCENARIO(pass_cancel_accept) {
   PWorld w; w.report_forwarder = true;
   int t1 = rt::spawn([&] { w.call<false>(); });
